@@ -158,6 +158,10 @@ func ruleNoOrderDep(w *World, r *Report, in map[*ssa.Function]bool) {
 				if ph, ok := idx.(*ssa.Phi); ok && unitCounterBoundedBy(f, ph, base) {
 					return
 				}
+				// a peeled traversal: xs[0] handled in front of for i := 1; i < len(xs); i++ { xs[i] }
+				if peeledTraversal(f, base, idx) {
+					return
+				}
 			}
 			if !mapOrdered(w, f, base, 0) {
 				return
@@ -1932,4 +1936,84 @@ func unitCounterBoundedBy(f *ssa.Function, phi *ssa.Phi, list ssa.Value) bool {
 		}
 	}
 	return false
+}
+
+// peeledTraversal: idx is either a constant position k or a unit counter that
+// starts at a constant s > 0 and is tested against len(list), and together the
+// constant positions used on list and the counter cover 0, 1, 2, ...: every
+// position is visited, none selected.
+func peeledTraversal(f *ssa.Function, list ssa.Value, idx ssa.Value) bool {
+	consts := map[int64]bool{}
+	start := int64(-1)
+	instrs(f, func(in ssa.Instruction) {
+		var b, i ssa.Value
+		switch x := in.(type) {
+		case *ssa.IndexAddr:
+			b, i = x.X, x.Index
+		case *ssa.Index:
+			b, i = x.X, x.Index
+		default:
+			return
+		}
+		if !sameValue(b, list) {
+			return
+		}
+		if k, ok := constInt(i); ok {
+			consts[k] = true
+			return
+		}
+		ph, ok := i.(*ssa.Phi)
+		if !ok {
+			return
+		}
+		hdr := ph.Block()
+		s := int64(-1)
+		for j, e := range ph.Edges {
+			if k, isK := constInt(e); isK && !hdr.Dominates(hdr.Preds[j]) {
+				s = k
+				continue
+			}
+			inc, ok := resolve(e).(*ssa.BinOp)
+			if !ok || inc.Op != token.ADD || stripConv(inc.X) != ssa.Value(ph) {
+				return
+			}
+			if k, isK := constInt(inc.Y); !isK || k != 1 {
+				return
+			}
+		}
+		if s <= 0 {
+			return
+		}
+		bounded := false
+		for _, blk := range f.Blocks {
+			_, _, ifi := ifSuccs(blk)
+			if ifi == nil || !hdr.Dominates(blk) {
+				continue
+			}
+			cmp, ok := ifi.Cond.(*ssa.BinOp)
+			if !ok || cmp.Op != token.LSS || stripConv(cmp.X) != ssa.Value(ph) {
+				continue
+			}
+			if lc, ok := resolve(cmp.Y).(*ssa.Call); ok && builtinName(lc) == "len" && sameValue(lc.Call.Args[0], list) {
+				bounded = true
+			}
+		}
+		if bounded {
+			start = s
+		}
+	})
+	if start <= 0 {
+		return false
+	}
+	for k := int64(0); k < start; k++ {
+		if !consts[k] {
+			return false
+		}
+	}
+	// idx itself is one of the covered positions
+	if k, ok := constInt(idx); ok {
+		return k < start
+	}
+	_, isPhi := idx.(*ssa.Phi)
+	return isPhi
 }
